@@ -264,3 +264,66 @@ def check_discrete_non_dataclass(i: Tuple[bool, bool, bool]) -> bool:
     except GridInitializationError:
         return False
     return True
+
+
+# ---- category classes with ClassVar / InitVar attributes (not fields) --------------------------
+from dataclasses import InitVar  # noqa: E402
+from typing import ClassVar  # noqa: E402
+
+
+@dataclass
+class _CV_valid:
+    working: int = 0
+    retired: int = 1
+    label: ClassVar[str] = "x"
+
+
+@dataclass
+class _CV_count:
+    bad: int = 0
+    good: int = 1
+    n_categories: ClassVar[int] = 2
+
+
+@dataclass
+class _CV_gap:
+    a: int = 0
+    filler: ClassVar[int] = 1
+    b: int = 2
+
+
+@dataclass
+class _IV_scale:
+    lo: int = 0
+    hi: int = 1
+    scale: InitVar[int] = 2
+
+
+@dataclass
+class _CV_only:
+    only: ClassVar[int] = 0
+
+
+CVPOOL = [_CV_valid, _CV_count, _CV_gap, _IV_scale, _CV_only, _C2, _C1, _C0]
+
+
+def _field_values(cls):
+    import dataclasses
+
+    return [getattr(cls, f.name, None) for f in dataclasses.fields(cls)]
+
+
+def check_discrete_pseudo_fields(i: Tuple[bool, bool, bool]) -> Tuple:
+    """
+    only the dataclass FIELDS count: ClassVar / InitVar attributes are neither categories nor codes
+    post: (_ == ("rejected",) and not _codes_ok(_field_values(CVPOOL[_num(i)]))) or (list(_) == _field_values(CVPOOL[_num(i)]) and _codes_ok(list(_)))
+    """
+    cls = CVPOOL[_num(i)]
+    if cls in (_C2, _C1):
+        for k in range(2):
+            setattr(cls, f"c{k}", k)
+    try:
+        g = DiscreteGrid(cls)
+    except GridInitializationError:
+        return ("rejected",)
+    return g.codes
